@@ -11,9 +11,23 @@ def _f32(x):
     return struct.unpack("<f", struct.pack("<f", x))[0]
 
 
+def field_items(reader):
+    """(name, field) for every static field of the schema AND every concrete name of a dynamic (glob) field that
+    has terms in this reader (dynamic names are not listed by Schema.items())."""
+    schema = reader.schema
+    names = set(schema.names())
+    try:
+        names.update(n for n in reader.indexed_field_names() if n in schema)
+    except Exception:  # noqa
+        pass
+    return [(n, schema[n]) for n in sorted(names)]
+
+
 def dump(reader, keyfield="id", vectors=True, columns=True, postings=True, lengths=True):
     """Return a JSON-like dict. Raises whatever the reader raises (callers guard)."""
     schema = reader.schema
+    fitems = field_items(reader)
+    static = set(schema.names())
     docnums = list(reader.all_doc_ids())
     key_of = {}
     stored = {}
@@ -46,12 +60,20 @@ def dump(reader, keyfield="id", vectors=True, columns=True, postings=True, lengt
         out["terms"] = terms
     if lengths:
         ln = {}
-        for fieldname in schema.scorable_names():
-            ln[fieldname] = {key_of[dn]: reader.doc_field_length(dn, fieldname) for dn in docnums}
+        for fieldname, field in fitems:
+            if field.scorable:
+                per = {key_of[dn]: reader.doc_field_length(dn, fieldname) for dn in docnums}
+                if fieldname not in static:
+                    # a concrete dynamic name is only discoverable while some live or not-yet-merged document has
+                    # terms in it: list only the documents that have a length, drop the field when none has
+                    per = {k: v for k, v in per.items() if v}
+                    if not per:
+                        continue
+                ln[fieldname] = per
         out["lengths"] = ln
     if vectors:
         vec = {}
-        for fieldname in sorted(n for n, f in schema.items() if f.vector):
+        for fieldname in sorted(n for n, f in fitems if f.vector):
             per = {}
             for dn in docnums:
                 if reader.has_vector(dn, fieldname):
@@ -61,14 +83,22 @@ def dump(reader, keyfield="id", vectors=True, columns=True, postings=True, lengt
                         items.append((v.id(), round(_f32(v.weight()), 6), v.value()))
                         v.next()
                     per[key_of[dn]] = items
+            if fieldname not in static and not per:
+                continue
             vec[fieldname] = per
         out["vectors"] = vec
     if columns:
         cols = {}
-        for fieldname, field in schema.items():
+        for fieldname, field in fitems:
             if field.column_type is not None and reader.has_column(fieldname):
                 cr = reader.column_reader(fieldname)
-                cols[fieldname] = {key_of[dn]: cr[dn] for dn in docnums}
+                per = {key_of[dn]: cr[dn] for dn in docnums}
+                if fieldname not in static:
+                    dflt = field.from_column_value(field.column_type.default_value())
+                    per = {k: v for k, v in per.items() if v != dflt}
+                    if not per:
+                        continue
+                cols[fieldname] = per
         out["columns"] = cols
     return out
 
@@ -76,9 +106,13 @@ def dump(reader, keyfield="id", vectors=True, columns=True, postings=True, lengt
 def stats(reader):
     """Layout-dependent-with-deletions statistics (compared only between deletion-free layouts)."""
     st = {"doc_count_all": reader.doc_count_all(), "has_deletions": reader.has_deletions(), "fields": {}, "terms": {}}
-    for fieldname in reader.schema.scorable_names():
-        st["fields"][fieldname] = (reader.field_length(fieldname), reader.min_field_length(fieldname),
-                                   reader.max_field_length(fieldname))
+    static = set(reader.schema.names())
+    for fieldname, field in field_items(reader):
+        if field.scorable:
+            v = (reader.field_length(fieldname), reader.min_field_length(fieldname), reader.max_field_length(fieldname))
+            if fieldname not in static and not v[0]:
+                continue
+            st["fields"][fieldname] = v
     for fieldname, tbytes in reader.all_terms():
         ti = reader.term_info(fieldname, tbytes)
         st["terms"]["%s:%r" % (fieldname, tbytes)] = (ti.doc_frequency(), round(_f32(ti.weight()), 4),
